@@ -24,6 +24,7 @@ type blkMsg struct {
 	proposerOK *bool
 	desc       string
 	variant    string
+	bnd        string
 }
 
 func (s *Scen) blockStep(m *blkMsg) *Step {
@@ -48,7 +49,11 @@ func (s *Scen) blockStep(m *blkMsg) *Step {
 		}
 	}
 	key := keyBlock(env.Slot, env.ProposerIndex)
-	return &Step{Topic: "block", Desc: m.desc, Variant: m.variant, Cond: cond, Key: map[string][]string{"block": {key}}, Now: m.now,
+	bnd := m.bnd
+	if bnd == "" && m.desc == "honest" && seen && env.Slot == par.Slot+1 {
+		bnd = "slot=parent_slot+1"
+	}
+	return &Step{Topic: "block", Desc: m.desc, Variant: m.variant, Bnd: bnd, Cond: cond, Key: map[string][]string{"block": {key}}, Now: m.now,
 		Run: func(b *Backend) gossipval.GossipValidatorResult {
 			return gossipval.ValidateBeaconBlock(context.Background(), env, b)
 		}}
@@ -224,8 +229,26 @@ func (s *Scen) blockHistories(tier string, rng *rand.Rand) []*History {
 			if slot <= v.FinalizedSlot() {
 				m.desc = "slot:<=finalized-slot"
 				m.now = s.Now
+				if slot == v.FinalizedSlot() {
+					m.bnd = "slot=finalized_slot:side-branch"
+				}
 			}
 			out = append(out, single(m.desc+" "+fmtSite(s.Stale.Root, slot), s.blockStep(m)))
+		}
+	}
+	// the finalized epoch starts with an empty slot: blocks built ON the finalized root descend from
+	// the finalized checkpoint whatever their slot; at the finalized start slot only
+	// "slot > finalized slot" fails, one slot later nothing does
+	if fb := v.Blocks[v.Fin.Root]; fb != nil && fb.Slot < v.FinalizedSlot() {
+		fs := v.FinalizedSlot()
+		if hm, pre, ok := mkHonest(psite{fb, fs + 1}, chain.BlockPlan{Graffiti: graffiti(7)}, "honest:slot=finalized+1"); ok {
+			h := s.blockStep(hm)
+			out = append(out, &History{Name: h.Desc + " " + fmtSite(fb.Root, fs+1), Steps: []*Step{h, clone(h)}})
+			_ = pre
+			if am, _, ok := mkHonest(psite{fb, fs}, chain.BlockPlan{Graffiti: graffiti(7)}, "slot:=finalized-slot"); ok {
+				am.now = hm.now
+				out = append(out, seqRefusedThenValid(am.desc+" "+fmtSite(fb.Root, fs), s.blockStep(am), h))
+			}
 		}
 	}
 	// two branches whose shufflings give different proposers for the same slot: a block signed by
